@@ -21,6 +21,8 @@ wallet address classes), and then checks, per case:
 Signing uses OpenSSL's randomised ECDSA nonce, so the signature bytes of a generated case are not a function of the
 seed; every case carries its signatures explicitly and is therefore replayable exactly.
 """
+import re
+
 from ..framework import Prop, mk, guarded, ensure_repo_on_path
 from .. import txfmt
 from . import c03 as G
@@ -28,7 +30,11 @@ from . import c03 as G
 U32 = (1 << 32) - 1
 FLAG_NAMES = ('P2SH', 'NULLDUMMY', 'CLEANSTACK', 'DISCOURAGE_UPGRADABLE_NOPS')
 
-TEMPLATES = ('p2pk', 'p2pkh', 'ms1of1', 'ms2of3', 'ms3of3', 'p2sh-p2pkh', 'p2sh-ms2of3')
+TEMPLATES = ('p2pk', 'p2pkh', 'ms1of1', 'ms2of3', 'ms3of3', 'p2sh-p2pk', 'p2sh-p2pkh', 'p2sh-ms2of3')
+# more keys (n > 3; n > 16 is written as a one-byte push), 0-of-n (no signature at all), P2SH with PUSHDATA1 redeem
+# script; quick: a few (hash type, shape) combinations each, thorough: more
+EXTRA_TEMPLATES = ('ms3of5', 'ms2of17', 'ms0of2', 'p2sh-ms3of5', 'ms5of5')
+EXTRA_THOROUGH = ('ms20of20', 'ms1of20', 'p2sh-ms15of15', 'ms17of17')
 HT_DEFINED = (1, 2, 3, 0x81, 0x82, 0x83)
 # undefined type bytes: `ht & 0x1f` selects the mode (0, 4, 0x1f, 0x41 -> ALL-like; 0x22 -> NONE; 0x43, 0x63 -> SINGLE;
 # 0x80, 0xa0, 0xff -> ALL-like | ANYONECANPAY; 0xe2 -> NONE | ACP; 0xc3 -> SINGLE | ACP)
@@ -49,7 +55,10 @@ def push(d):
 
 
 def small(n):
-    return bytes([0x50 + n])
+    """a small number as CScript([n]) writes it (own transcription: OP_0, OP_1..OP_16, one-byte push)"""
+    if n == 0:
+        return b'\x00'
+    return bytes([0x50 + n]) if n <= 16 else bytes([1, n])
 
 
 class C05(Prop):
@@ -63,7 +72,7 @@ class C05(Prop):
         'changes_only_if_committed', 'committed_edit_changes', 'committed_edit_changes_digest',
         'committed_field_edit_changes', 'committed_count_edit_changes', 'changedParts_spec',
         'changes_iff_changedParts', 'own_input_always_committed', 'scriptSig_witness_never_committed',
-        'table_depends_on_mode_only', 'p2pk_verify', 'template_accepts_p2pk',
+        'table_depends_on_mode_only', 'apply_not_applicable', 'p2pk_verify', 'template_accepts_p2pk',
         'template_rejects_wrong_key_p2pk', 'p2pkh_verify', 'template_accepts_p2pkh',
         'template_rejects_wrong_key_p2pkh', 'template_rejects_other_key_p2pkh', 'matching_iff_greedy_reverse',
         'multisig_verify', 'template_accepts_multisig', 'template_rejects_wrong_key_multisig',
@@ -74,7 +83,9 @@ class C05(Prop):
         'multisig_committed_edit_rejects', 'p2sh_p2pkh_uncommitted_edit_same_verdict',
         'p2sh_multisig_uncommitted_edit_same_verdict', 'p2sh_p2pk_uncommitted_edit_same_verdict',
         'p2sh_p2pk_committed_edit_rejects', 'p2sh_p2pkh_committed_edit_rejects',
-        'p2sh_multisig_committed_edit_rejects', 'realSigCheck_eq_spec', 'template_script_codes_parse',
+        'p2sh_multisig_committed_edit_rejects', 'p2pk_committed_edit_flips', 'p2pkh_committed_edit_flips',
+        'multisig_committed_edit_flips', 'p2sh_p2pk_committed_edit_flips', 'p2sh_p2pkh_committed_edit_flips',
+        'p2sh_multisig_committed_edit_flips', 'realSigCheck_eq_spec', 'template_script_codes_parse',
         'p2pk_verify_real', 'p2pkh_verify_real', 'multisig_verify_real', 'p2sh_p2pk_verify_real',
         'p2sh_p2pkh_verify_real', 'p2sh_multisig_verify_real', 'p2pk_real_eq_reference',
         'p2pkh_real_eq_reference', 'multisig_real_eq_reference', 'p2sh_p2pk_real_eq_reference',
@@ -84,7 +95,10 @@ class C05(Prop):
         'p2sh_p2pkh_uncommitted_edit_same_verdict_real', 'p2sh_multisig_uncommitted_edit_same_verdict_real',
         'p2pk_committed_edit_rejects_real', 'p2pkh_committed_edit_rejects_real',
         'multisig_committed_edit_rejects_real', 'p2sh_p2pk_committed_edit_rejects_real',
-        'p2sh_p2pkh_committed_edit_rejects_real', 'p2sh_multisig_committed_edit_rejects_real')]
+        'p2sh_p2pkh_committed_edit_rejects_real', 'p2sh_multisig_committed_edit_rejects_real',
+        'p2pk_committed_edit_flips_real', 'p2pkh_committed_edit_flips_real',
+        'multisig_committed_edit_flips_real', 'p2sh_p2pk_committed_edit_flips_real',
+        'p2sh_p2pkh_committed_edit_flips_real', 'p2sh_multisig_committed_edit_flips_real')]
     anchors = [('bitcoin/core/script.py', 'RawSignatureHash'),
                ('bitcoin/core/script.py', 'SignatureHash'),
                ('bitcoin/core/scripteval.py', '_CheckSig'),
@@ -115,6 +129,10 @@ class C05(Prop):
                    'CRYPTOGRAPHIC, explicit hypothesis never axiom: SHA-256d does not collide on the two hashed messages '
                    '(hypothesis hcr of committed_edit_changes_digest and of *_committed_edit_rejects) — needed to go from '
                    '"the hashed messages differ" (proved) to "the digests differ"',
+                   'the *_committed_edit_rejects theorems are committed_edit_changes_digest composed with the closed form of '
+                   'the template: the consequent of their hypothesis hunf is EQUIVALENT to their conclusion; they do not '
+                   'assume the signature was valid before the edit (the *_committed_edit_flips theorems add horacle and '
+                   'conclude accepted-before and rejected-after)',
                    'CRYPTOGRAPHIC, explicit hypothesis never axiom: hunf of *_committed_edit_rejects — the signature made '
                    'for the old digest does not verify for the new digest of the edited transaction IF that digest is '
                    'different (unforgeability for this one instance). NOT assumed: "a signature is valid for one digest '
@@ -131,16 +149,26 @@ class C05(Prop):
                    'uncommitted_edit_preserves has no hypothesis. For SINGLE with idx >= |vout| the wallet form '
                    'SignatureHash raises ValueError (the library does not sign); the harness signs the constant 1 '
                    'returned by RawSignatureHash to exercise the consensus behaviour',
+                   'edit catalogue: positions are naturals (Python negative positions are outside the catalogue); insertion '
+                   'beyond the end appends (list.insert); a field write / del / swap at a position that does not exist '
+                   'raises IndexError in Python = not applicable (Spec.Commit.applicable), transaction unchanged; the table '
+                   'row "insertion after position i is uncommitted" needs insertSafe (position i exists or the insert '
+                   'position is within the list)',
+                   'multisig theorems need 1 <= m <= n <= 20; 0-of-n (scripts tied: numPush 0 = OP_0 = CScript([0])) is '
+                   'covered by the end-to-end run only',
                    'prediction `differs` for an edit that moves the transaction into / out of the SIGHASH_SINGLE "return '
                    'one" case additionally assumes SHA-256d never yields the constant 1 (preimage resistance)']
     level = 'proof'
-    rule = ('7 templates x hash types {ALL,NONE,SINGLE}x{,ANYONECANPAY} + undefined type bytes x shapes (1..4 inputs, '
+    rule = ('8 templates (+ 3-of-5, 2-of-17, 0-of-2, 5-of-5, P2SH 3-of-5; thorough also 20-of-20, 1-of-20, 17-of-17, P2SH '
+            '15-of-15) x hash types {ALL,NONE,SINGLE}x{,ANYONECANPAY} + undefined type bytes x shapes (1..4 inputs, '
             '0..4 outputs, signing position first/middle/last, SINGLE with idx >= |vout|) x compressed/uncompressed keys '
             '(secret 1 included) x admissible flag sets: signed with the library, base case must be accepted; then EVERY '
             'single edit of the catalogue (each field of each input/output incl. no-op writes, insert/remove/swap at '
             'every position incl. duplicates of the signing input, nLockTime, nVersion, witness): impl == model, real '
             'mutation == Spec apply, outcome == table prediction; wrong key / swapped / repeated / reordered signatures '
-            'and wrong type byte must be rejected; VerifySignature on the signed spend')
+            'and wrong type byte must be rejected; VerifySignature on the signed spend; insert positions beyond the end, '
+            'inapplicable edits (IndexError); multisig with different hash types per signature; a sweep over all 256 '
+            'hash-type bytes (base case + 5 edits each)')
 
     # ---- setup ----------------------------------------------------------------------------------
     def setup(self):
@@ -161,7 +189,7 @@ class C05(Prop):
         return set(self.flagobj[i] for i in range(4) if mask >> i & 1)
 
     # ---- building and signing spends (library code on purpose: this is what the property is about) ----------
-    def make_keys(self, rng, n):
+    def make_keys(self, rng, n, compressed=None):
         """n keys with pairwise different SECRETS (the same secret in compressed and uncompressed form is the same
         key: its signatures verify under both encodings)"""
         secs = []
@@ -175,34 +203,38 @@ class C05(Prop):
                 sec = bytes(rng.getrandbits(8) for _ in range(32))
             if sec not in secs:
                 secs.append(sec)
-        return [self.W.CBitcoinSecret.from_secret_bytes(sec, compressed=rng.random() < 0.6) for sec in secs]
+        return [self.W.CBitcoinSecret.from_secret_bytes(sec, compressed=(rng.random() < 0.6) if compressed is None else compressed)
+                for sec in secs]
+
+    @staticmethod
+    def parse_template(name):
+        """(p2sh?, base kind, m, n)"""
+        p2sh = name.startswith('p2sh-')
+        base = name[5:] if p2sh else name
+        mo = re.fullmatch(r'ms(\d+)of(\d+)', base)
+        if mo:
+            return p2sh, 'ms', int(mo.group(1)), int(mo.group(2))
+        assert base in ('p2pk', 'p2pkh'), name
+        return p2sh, base, 1, 1
 
     def template(self, name, keys):
         """(scriptPubKey, script code that is signed, m, keys that may sign, builder of scriptSig from [sig])"""
         S, W = self.S, self.W
         pubs = [bytes(k.pub) for k in keys]
-
-        def ms_script(m, n):
-            return small(m) + b''.join(push(p) for p in pubs[:n]) + small(n) + b'\xae'
-        if name == 'p2pk':
-            spk = push(pubs[0]) + b'\xac'
-            return spk, spk, 1, 1, lambda sigs: push(sigs[0])
-        if name == 'p2pkh':
-            spk = bytes(W.P2PKHBitcoinAddress.from_pubkey(keys[0].pub).to_scriptPubKey())
-            return spk, spk, 1, 1, lambda sigs: push(sigs[0]) + push(pubs[0])
-        if name.startswith('ms'):
-            m, n = int(name[2]), int(name[5])
-            spk = ms_script(m, n)
-            return spk, spk, m, n, lambda sigs: b'\x00' + b''.join(push(s) for s in sigs)
-        if name == 'p2sh-p2pkh':
-            redeem = bytes(W.P2PKHBitcoinAddress.from_pubkey(keys[0].pub).to_scriptPubKey())
-            spk = bytes(W.P2SHBitcoinAddress.from_redeemScript(S.CScript(redeem)).to_scriptPubKey())
-            return spk, redeem, 1, 1, lambda sigs: push(sigs[0]) + push(pubs[0]) + push(redeem)
-        if name == 'p2sh-ms2of3':
-            redeem = ms_script(2, 3)
-            spk = bytes(S.CScript(redeem).to_p2sh_scriptPubKey())
-            return spk, redeem, 2, 3, lambda sigs: b'\x00' + b''.join(push(s) for s in sigs) + push(redeem)
-        raise ValueError(name)
+        p2sh, base, m, n = self.parse_template(name)
+        if base == 'p2pk':
+            inner = push(pubs[0]) + b'\xac'
+            isig = lambda sigs: push(sigs[0])
+        elif base == 'p2pkh':
+            inner = bytes(W.P2PKHBitcoinAddress.from_pubkey(keys[0].pub).to_scriptPubKey())
+            isig = lambda sigs: push(sigs[0]) + push(pubs[0])
+        else:
+            inner = small(m) + b''.join(push(p) for p in pubs[:n]) + small(n) + b'\xae'
+            isig = lambda sigs: b'\x00' + b''.join(push(s) for s in sigs)
+        if not p2sh:
+            return inner, inner, m, n, isig
+        spk = bytes(W.P2SHBitcoinAddress.from_redeemScript(S.CScript(inner)).to_scriptPubKey())
+        return spk, inner, m, n, lambda sigs: isig(sigs) + push(inner)
 
     def sighash(self, code, tx, idx, ht):
         S = self.S
@@ -287,21 +319,38 @@ class C05(Prop):
         if all(len(st) == 0 for st in wit):
             wit[0] = [b'\x01']
         out.append('wt:' + '|'.join(':'.join([str(len(st))] + [x.hex() for x in st]) for st in wit))
+        # positions beyond the end: list.insert appends; field writes, del and swaps raise IndexError (not applicable)
+        out.append('ii:%d:%s' % (nin + rng.choice((1, 2, 7)), newin()))
+        out.append('io:%d:%s' % (nout + rng.choice((1, 2, 7)), newout()))
+        out.append(rng.choice(['ri:%d' % nin, 'sq:%d:5' % (nin + 1), 'ph:%d:%s' % (nin, '00' * 32), 'wi:0:%d' % nin]))
+        out.append(rng.choice(['ro:%d' % nout, 'va:%d:5' % nout, 'pk:%d:51' % (nout + 2), 'wo:%d:0' % nout]))
         return out
 
     # ---- generation ----------------------------------------------------------------------------------
     def combos(self, tier):
+        """(template, hash type, shape, repetition, mode) — a pure function of the tier (no rng: every shard must
+        enumerate the same list).  mode 'full': the whole programme; 'sweep': base case + 5 edits (every hash-type
+        byte 0..255 on one template and shape)."""
         big = tier == 'thorough'
         out = []
         j = 0
-        for rep in range(20 if big else 1):
+        for rep in range(12 if big else 1):      # (each case is verified in two contexts since the audit round)
             for tpl in TEMPLATES:
                 hts = list(HT_DEFINED) + list(HT_UNDEFINED if big else HT_UNDEFINED[(j % 2)::2])
                 for ht in hts:
                     # three shapes per (template, hash type), rotating through all of them
                     for s in range(3):
-                        out.append((tpl, ht, SHAPES[(j + 4 * s) % len(SHAPES)], rep))
+                        out.append((tpl, ht, SHAPES[(j + 4 * s) % len(SHAPES)], rep, 'full'))
                         j += 1
+        extra = EXTRA_TEMPLATES + (EXTRA_THOROUGH if big else ())
+        for k, tpl in enumerate(extra):
+            hts = (HT_DEFINED + HT_UNDEFINED) if big else (1, (0x83, 2, 0x81, 3, 0x82)[k % 5], HT_UNDEFINED[k % 12])
+            for q, ht in enumerate(hts):
+                out.append((tpl, ht, SHAPES[(k + 5 * q) % len(SHAPES)], 0, 'full'))
+        for rep in range(4 if big else 1):
+            for ht in range(256):
+                out.append((('p2pk', 'p2pkh', 'ms2of3', 'p2sh-p2pk')[rep], ht, ((3, 3, 1), (2, 1, 1), (4, 4, 3), (3, 2, 0))[rep],
+                            rep, 'sweep'))
         return out
 
     def pick_flags(self, rng, tpl):
@@ -313,14 +362,16 @@ class C05(Prop):
         # partition: `combos` is a pure function of the tier (no rng), so every shard enumerates the same list and
         # combo j is run by exactly shard j % nshards; the per-shard rng is used only INSIDE a combo (keys, field
         # values, edit payloads), where no index partition is applied  (harness/tools/c05_partition_selftest.py)
-        for j, (tpl, ht, (nin, nout, idx), rep) in enumerate(self.combos(tier)):
+        for j, (tpl, ht, (nin, nout, idx), rep, mode) in enumerate(self.combos(tier)):
             if j % nshards != shard:
                 continue
-            yield from self.gen_combo(rng, tpl, ht, nin, nout, idx, full=True)
+            yield from self.gen_combo(rng, tpl, ht, nin, nout, idx, full=(mode == 'full'))
 
     def gen_combo(self, rng, tpl, ht, nin, nout, idx, full):
         C, S = self.C, self.S
-        keys = self.make_keys(rng, 4)
+        p2sh, base, m, n = self.parse_template(tpl)
+        # a P2SH redeem script must fit a 520-byte push: many keys only in compressed form
+        keys = self.make_keys(rng, n + 1, compressed=True if (p2sh and n > 7) else None)
         spk, code, m, n, mk_sig = self.template(tpl, keys)
         t, fund = self.gen_spend_tx(rng, nin, nout, idx, spk, dup_out=rng.random() < 0.3)
         tx = txfmt.to_tx(t, mutable=rng.random() < 0.5)
@@ -333,12 +384,13 @@ class C05(Prop):
         cls = rng.choice('im')
         tag = '%s/ht%02x/%d-%d@%d' % (tpl, ht, nin, nout, idx)
 
-        def case(expect, sig, edit, text=text, sub=''):
-            return mk('c05.case', expect, cls, sig.hex(), spk.hex(), fl, text, idx, ht, edit, tag=tag + sub)
+        hts = ','.join([str(ht)] * m)                      # one hash type per signature
+
+        def case(expect, sig, edit, text=text, sub='', hts=hts):
+            return mk('c05.case', expect, cls, sig.hex(), spk.hex(), fl, text, idx, hts, edit, tag=tag + sub)
         # (0) the scripts are the templates the acceptance theorems are about (Spec/Templates), built here with
         #     the library's own CScript([...]) / address classes
-        kind = {'p2pk': 'p2pk', 'p2pkh': 'p2pkh', 'p2sh-p2pkh': 'p2sh-p2pkh'}.get(tpl) or \
-            ('p2sh-ms' if tpl.startswith('p2sh') else 'ms')
+        kind = ('p2sh-' if p2sh else '') + base
         yield mk('c05.tmpl', kind, m, ','.join(bytes(k.pub).hex() for k in keys[:n]), ','.join(x.hex() for x in sigs),
                  spk.hex(), ssig.hex(), tag=tag + '/template')
         # (1) the signed input verifies
@@ -359,10 +411,30 @@ class C05(Prop):
         yield mk('c05.vsig', 'reject-precondition', cls, txfmt.show_tx(fund), txfmt.show_tx(tw), idx,
                  tag=tag + '/vsig-other-tx')
         # (2) every single edit, signature kept
-        for e in self.edits(rng, t, idx):
+        edits = self.edits(rng, t, idx)
+        if not full:
+            # hash-type sweep: another output's value, another input's sequence, the own output, an append, nLockTime
+            want = ['va:%d:' % (0 if idx != 0 else nout - 1), 'sq:%d:' % ((idx + 1) % nin), 'va:%d:' % idx,
+                    'ii:%d:' % nin, 'lt:']
+            edits = [next((e for e in edits if e.startswith(w)), None) for w in want]
+            edits = [e for e in edits if e]
+        for e in edits:
             yield case('accept', ssig, e)
+        if not full:
+            return
+        # (2b) multisig with DIFFERENT hash types on the signatures: every supplied signature must still verify, so an
+        #      edit keeps the verdict only if it is uncommitted under every hash type involved
+        if m >= 2:
+            mix = [ht] + [rng.choice([x for x in HT_DEFINED + HT_UNDEFINED if x != ht]) for _ in range(m - 1)]
+            msigs = [self.sign(keys[k], code, tx, idx, h) for k, h in zip(signers, mix)]
+            mhts = ','.join(str(h) for h in mix)
+            yield case('accept', mk_sig(msigs), '-', sub='/mixed', hts=mhts)
+            for e in rng.sample(edits, min(14, len(edits))):
+                yield case('accept', mk_sig(msigs), e, sub='/mixed', hts=mhts)
+        if m == 0:
+            return                                            # no signature: nothing that could fail to verify
         # (3) signatures that must not verify
-        other = keys[3]                                       # never part of the template
+        other = keys[n]                                       # never part of the template
         bad = []
         wrong = [self.sign(other, code, tx, idx, ht)] + sigs[1:]
         bad.append(('wrongkey', mk_sig(wrong)))
@@ -391,13 +463,13 @@ class C05(Prop):
             sig_j = mk_sig([self.sign(keys[k], code, tx2, jdx, ht) for k in signers])
             text2 = txfmt.show_tx(t2)
             # the regular case of each position decides whether a swap can be noticed at all (both "return one")
-            yield mk('c05.case', 'accept', cls, sig_i.hex(), spk.hex(), fl, text2, idx, ht, '-', tag=tag + '/swap-own-i')
-            yield mk('c05.case', 'accept', cls, sig_j.hex(), spk.hex(), fl, text2, jdx, ht, '-', tag=tag + '/swap-own-j')
+            yield mk('c05.case', 'accept', cls, sig_i.hex(), spk.hex(), fl, text2, idx, hts, '-', tag=tag + '/swap-own-i')
+            yield mk('c05.case', 'accept', cls, sig_j.hex(), spk.hex(), fl, text2, jdx, hts, '-', tag=tag + '/swap-own-j')
             single = (ht & 0x1f) == 3
             both_one = single and idx >= nout and jdx >= nout
             exp = 'accept' if both_one else 'reject'
-            yield mk('c05.case', exp, cls, sig_j.hex(), spk.hex(), fl, text2, idx, ht, '-', tag=tag + '/swapped')
-            yield mk('c05.case', exp, cls, sig_i.hex(), spk.hex(), fl, text2, jdx, ht, '-', tag=tag + '/swapped')
+            yield mk('c05.case', exp, cls, sig_j.hex(), spk.hex(), fl, text2, idx, hts, '-', tag=tag + '/swapped')
+            yield mk('c05.case', exp, cls, sig_i.hex(), spk.hex(), fl, text2, jdx, hts, '-', tag=tag + '/swapped')
 
     # ---- the table on its own (exhaustive small sub-domain, no signatures) -----------------------------
     # covered inside every c05.case reply (class column); nothing else to enumerate here.
@@ -482,14 +554,21 @@ class C05(Prop):
             base = self.verify(sig, spk, base_tx, idx, fl)
             if edit == '-':
                 return '%s#%s#%s' % (base, base, txfmt.show_tx(txfmt.from_tx(base_tx)))
-            self.apply_edit(mtx, edit)
+            before = txfmt.show_tx(txfmt.from_tx(mtx))
+            try:
+                self.apply_edit(mtx, edit)
+            except IndexError:
+                # the list operation itself refuses (position does not exist): the edit is not applicable; the
+                # transaction must be untouched
+                after = txfmt.show_tx(txfmt.from_tx(mtx))
+                return '%s#inapplicable#%s' % (base, after if after == before else 'TX-CHANGED:' + after)
             etx = mtx if cls == 'm' else C.CTransaction.from_tx(mtx)
             edited = self.verify(sig, spk, etx, idx, fl)
             return '%s#%s#%s' % (base, edited, txfmt.show_tx(txfmt.from_tx(etx)))
         if c['op'] == 'c05.tmpl':
             kind, m, keys, sigs, spk_used, ssig_used = a
             return guarded(lambda: self.lib_template(kind, int(m), [bytes.fromhex(x) for x in keys.split(',')],
-                                                     [bytes.fromhex(x) for x in sigs.split(',')]))
+                                                     [bytes.fromhex(x) for x in sigs.split(',')] if sigs else []))
         if c['op'] == 'c05.vsig':
             expect, cls, fund, text, idx = a
             txfrom = txfmt.to_tx(txfmt.parse_tx(fund))
@@ -546,8 +625,11 @@ class C05(Prop):
             return False
         if klass not in ('committed', 'uncommitted', '-') or pred not in ('same', 'differs'):
             return False
-        if klass == 'uncommitted' and pred != 'same':
-            return False
+        # (table row `uncommitted` + insertSafe => `same` is cross-checked inside the driver: it answers
+        #  `table-contradiction`, which is not an admissible prediction here.  `uncommitted` with `differs` is
+        #  legitimate when an insertion beyond the end appends AT the signing position in the "return one" case.)
+        if iedit == 'inapplicable':
+            return pred == 'same'
         if pred == 'same':
             return iedit == ibase
         return iedit == 'err:validation'
